@@ -189,11 +189,12 @@ impl Recv {
                 "lower than high water mark",
             ));
         }
-        self.credit_consumed_by(final_offset.into(), received, max_data)?;
-
         if matches!(self.state, RecvState::ResetRecvd { .. }) {
+            // Redundant reset (e.g. a retransmission): the final size was validated above and
+            // its flow control credit was already consumed by the first one
             return Ok(false);
         }
+        self.credit_consumed_by(final_offset.into(), received, max_data)?;
         self.state = RecvState::ResetRecvd {
             size: final_offset.into(),
             error_code,
